@@ -44,6 +44,61 @@ CLAIMED = {
             "programs with G92 X/Y/Z are assumed away while known finding KF-G92-xyz-offset is open."),
 }
 
+
+PIPE_NOTE = ("Floats as reals; numbers enter through numeric-key literals (the parser's reading of spellings is C19's subject); "
+             "planArc/computeArcCenterOffsets stubbed by arbitrary samples/offsets unless stated; logger stubbed; ")
+
+
+def _bsr(text):
+    return ("Bounded symbolic model checking (bounded symbolic runs): the real GcodeHandlers/ExcludeRegionState/"
+            "RetractionState/Position objects process programs with a concrete command skeleton and symbolic numbers and "
+            "region geometry; two reference printers (file vs. filter output) give the oracle; " + text)
+
+
+CLAIMED.update({
+    "C01": ("DESIGN.md 9/C01", TECH + "bounded symbolic runs against a reference printer",
+            _bsr("z3 shows per path that no executed element moves X/Y into a region and that nothing moves or pushes "
+                 "filament while the oracle's episode is open; region additions interleaved with the stream."),
+            PIPE_NOTE + "K=2 over five alphabets and K=3 episode templates (quick), K=3/4 (thorough); one region plus one added "
+            "mid-stream; exclusion enabled throughout; two known findings assumed away by scenario predicates."),
+    "C03": ("DESIGN.md 9/C03", TECH + "bounded symbolic runs against a reference printer",
+            _bsr("after every move whose destination is outside all regions z3 shows P's X/Y/Z, mode and units equal V's and "
+                 "that the re-positioning travel happens at max(previous Z, target Z)."),
+            PIPE_NOTE + "templates enter/inside/leave, frame/enter/leave, arcs, any^3 (quick), K=4 (thorough); one region; "
+            "two known findings assumed away (relative exit, entering move with Z)."),
+    "C04": ("DESIGN.md 9/C04", TECH + "bounded symbolic runs over role-structured programs (matched equal-length cycles by construction)",
+            _bsr("z3 shows the printer's E register equals the file's whenever no episode is open, every forwarded printing "
+                 "move pushes the file's amount, suppressed moves push nothing."),
+            PIPE_NOTE + "absolute extrusion; one symbolic retraction length; K=3 all roles, K=5 core roles, K=4 firmware (quick); "
+            "two known findings assumed away (owed recovery before a printing move; retraction dropped while a recovery is owed)."),
+    "C05": ("DESIGN.md 9/C05", TECH + "bounded symbolic runs over role-structured programs",
+            _bsr("z3 shows physical retraction depth never exceeds the deepest requested, is never shallower than the file's, "
+                 "equals the file's when a forwarded printing move extrudes; firmware G10/G11 alternate, keep parity and parameters."),
+            PIPE_NOTE + "same programs as C04; depth = high-water mark minus filament position of each reference printer."),
+    "C06": ("DESIGN.md 9/C06", TECH + "bounded symbolic runs through the real plugin hooks with configured scripts and deferred codes",
+            _bsr("for every mode assignment, D occurrences with symbolic parameters and each of four endings z3 shows the flush "
+                 "equals the deferred-code model (first/last/merge/exclude), scripts appear exactly once in the right place and "
+                 "nothing leaks into the next episode."),
+            "OctoPrint injections stubbed; two fixed multi-line scripts through the real _splitGcodeScript; D=2 quick / 3 thorough."),
+    "C07": ("DESIGN.md 9/C07", TECH + "format tokens keep numbers symbolic through str()/format(); CPython's repr contract decides exponent notation",
+            _bsr("every command the filter synthesises is re-read by an independent RS274 reader: one code, distinct letters, "
+                 "numbers; for every number produced by a repr-style conversion z3 shows the value is outside CPython's "
+                 "exponent range on that path (both branches of formatNumber explored); values read back equal the file's."),
+            PIPE_NOTE + "repr contract (exponent iff v!=0 and (|v|<1e-4 or |v|>=1e16); [.N]f never) validated concretely; round-off-only "
+            "tiny values do not exist in real arithmetic (outside the solver's reach)."),
+    "C09": ("DESIGN.md 9/C09", TECH + "bounded symbolic runs with the real planArc/computeArcCenterOffsets under linear over-approximating trig contracts",
+            _bsr("over a wide alphabet (missing/repeated/valueless words, signs, leading-dot numbers, all arc forms, G10 S/P, "
+                 "bare G92, M206, unknown codes) z3 explores every feasible path; an exception escaping the real code or a "
+                 "result outside the hook protocol is a violation; both the hook and StreamProcessor.process_line entry points."),
+            "Floats as reals (no overflow); atan2/cos/sin/hypot by linear facts that hold of the real functions; arc segment count "
+            "concretised over 0..S (S=2/3), longer arcs cut; K=2."),
+    "C14": ("DESIGN.md 9/C14", TECH + "bounded symbolic runs through the real plugin hooks with @-command steps",
+            _bsr("with enable/disable/other/custom @-commands (isStreaming nondeterministic) z3 shows: forwarded unchanged while "
+                 "disabled; a mid-episode disable re-synchronises the printer; after re-enabling the filter's decision equals the "
+                 "oracle's from the true position; non-matching or streaming commands change nothing."),
+            PIPE_NOTE + "templates of 3-4 steps quick, 5 thorough; default patterns plus an unanchored custom pair; relative-exit known finding assumed away."),
+})
+
 NOT_YET = {}
 
 
